@@ -4,7 +4,7 @@ from ..sexp import S, unS, dump
 from . import c08
 
 SCHEMES = ['https', 'http', 'file', 'git+https', 'git+ssh', 'hg+static-http', 'svn+svn', 'bzr+lp', 'ftp', 'a+b', 'C', 'x-y.z', 's3', 'HTTPS']
-URL_TAILS = ['//h/p', '//h/p.whl', '///a/b', '//u:pw@h:8080/p?q=1#f', '//h/${HOME}/p', 'p', '//h/[x]/p', '//h/p@v1', '\\path', '//h/a%20b']
+URL_TAILS = ['//h/p', '//h/p.whl', '///a/b', '//localhost/abs/dir/p.whl', '//localhost', '//u:pw@h:8080/p?q=1#f', '//h/${HOME}/p', 'p', '//h/[x]/p', '//h/p@v1', '\\path', '//h/a%20b']
 PATHS = ['./p', '../up/p.whl', '/abs/p', '/abs/dir/', 'rel/p', 'rel\\p', '.hidden', '.', '..', './a b', '\\\\unc\\p', '/p.tar.gz', './${HOME}/p', 'a/b@c', './p#frag', '~/p', 'dir.d/p']
 NAMES = ['foo', 'requests-2.26.0', 'Foo_Bar', 'a', 'x.y', 'pkg-1.0-py3-none-any']
 EXTS = ['.whl', '.tbz', '.txz', '.tlz', '.zip', '.tgz', '.tar', '.tar.bz2', '.tar.xz', '.tar.lz', '.tar.lzma', '.tar.gz']
@@ -34,7 +34,7 @@ def run(ctx):
         for e in NON_EXTS:
             cases.append(('plain-name', n + e))
     if quick:
-        keep = [c for c in cases if c[0] != 'url'] + ctx.rng.sample([c for c in cases if c[0] == 'url'], 60)
+        keep = [c for c in cases if c[0] != 'url' or c[1].startswith('file://localhost')] + ctx.rng.sample([c for c in cases if c[0] == 'url'], 60)
         cases = keep
     for ext in (False, True):
         h = build.harness(ext=ext)
@@ -96,9 +96,13 @@ def unnamed_case(ctx, sess, keys, rm, cls, base, suf, wd):
             ctx.corr_cases += 1
             if not reqmodel.same_outcome(ctx, sess, 'UnnamedRequirement', text, reqmodel.model_outcome(m), io):
                 ctx.disagreement('parse_unnamed ~ UnnamedRequirement::parse (outcome)', text, repr(reqmodel.model_outcome(m)), repr(io[:4]))
+            elif io[0] == 'ok' and [dump(x) for x in m[1:4]] != [dump(x) for x in r[1:4]]:
+                ctx.disagreement('parse_unnamed ~ UnnamedRequirement::parse (url, given, extras)', text, ' '.join(dump(x) for x in m[1:4])[:400], ' '.join(dump(x) for x in r[1:4])[:400])
         if io[0] == 'err':
             # acceptable only when the URL type itself refuses the text (relative path without working directory, unparsable URL)
-            if io[1] != 'url':
+            if io[1] == 'url' and base.startswith('file://localhost/'):
+                ctx.failure('%s rejects the absolute file URL %r: %s' % (entry, text, io[6][:120]), {'entry': entry, 'input': text, 'class': cls})
+            elif io[1] != 'url':
                 if '[' in base or ']' in base or ' ' in base:
                     continue
                 ctx.failure('%s rejects %r (%s) with %r' % (entry, text, cls, io[1:4]), {'entry': entry, 'input': text, 'class': cls})
